@@ -60,7 +60,7 @@ class C09(Prop):
             sheets = []
             ok = True
             for s in names:
-                tabs = [T.gen_table(rng, sep="\x00", bigint=False, odd=False, excel=True) for _ in range(rng.choice([1, 1, 2, 3]))]
+                tabs = [T.gen_table(rng, sep="\x00", bigint=False, odd=False, excel=True, empty_rate=0.05) for _ in range(rng.choice([1, 1, 2, 3]))]
                 ok = ok and all(excel_ok(t) for t in tabs)
                 sheets.append([s, tabs])
             if not ok:
